@@ -59,6 +59,8 @@ def model_check(tier, wd, out):
                          f"every action taken ({res['actions']})")
     if out.prop in ("C06", "C08"):
         tot_states += refinement_check(tier, wd, out)
+    if out.prop in ("C06", "C07"):
+        tot_states += pm_refinement_check(tier, wd, out)
     out.add(states=tot_states, transitions=tot_trans)
 
 
@@ -86,6 +88,80 @@ def refinement_check(tier, wd, out):
         if "Invariant Consistent is violated" not in res["out"]:
             raise ToolError(f"TreeImpl.tla: the faulty re-hash pass '{variant}' was not refuted (vacuous refinement check)")
     out.notes.append("TreeImpl.tla: the two faulty re-hash passes (defect repaired by fix 108de92; seeded change C07-m3) are refuted by TLC")
+    return states
+
+
+PM_INVS = "Consistent MarkOK ProofOK ResultOK KeysInjective LoadedEqualsLive"
+
+
+def pm_refinement_check(tier, wd, out):
+    """TreePm.tla: the node algorithms of the persistent backend (external crate + adapter) refine the ideal tree, the
+    faulty variants are refuted; then the REAL store is compared with the model's, node by node, along recorded histories
+    (Trace_TreePm.tla = TreePm's actions + the logged fields, model state carried through the whole trace)."""
+    def cfg(name, variant, d, vals, mb, spec="Spec", extra=""):
+        p = os.path.join(wd, name + ".cfg")
+        with open(p, "w") as f:
+            f.write(f"SPECIFICATION {spec}\nCONSTANTS\n  Depth = {d}\n  Vals = {{{', '.join(map(str, vals))}}}\n  MaxBatch = {mb}\n"
+                    f"  Variant = \"{variant}\"\nINVARIANTS {PM_INVS if spec == 'Spec' else PM_INVS.replace('KeysInjective ', '')}\n{extra}CHECK_DEADLOCK FALSE\n")
+        return p
+    quick = tier == "quick"
+    states = 0
+    runs = [(2, [0, 1, 2], 3)] + ([] if quick else [(3, [0, 1], 2)])
+    for d, vals, mb in runs:
+        res = tlc_mc("TreePm", cfg(f"MC_TreePm_d{d}", "none", d, vals, mb), f"mc-treepm-{out.prop}-{d}", workers=8, timeout=3000)
+        require_mc_ok(res, f"TreePm.tla depth {d}", must_take=["Apply", "Override", "Reload"])
+        states += res["distinct"]
+        out.notes.append(f"TLC TreePm.tla depth {d} Vals={vals} MaxBatch={mb}: the transcribed node algorithms of the persistent backend "
+                         f"(set / recalculate_from, delete, batch_insert = fill_nodes + batch_recalculate + put_batch, load; adapter flags and dispatch) "
+                         f"refine TreeOps - {PM_INVS} hold in {res['distinct']} distinct states ({res['generated']} transitions); a reload is invisible")
+    for variant, inv in (("pairing-without-index", "KeysInjective"), ("root-inside-if", "Consistent"), ("recalc-left-only", "Consistent"),
+                         ("kf-override", "Consistent")):
+        res = tlc_mc("TreePm", cfg(f"MC_TreePm_{variant}", variant, 2, [0, 1], 2), f"mc-treepm-{out.prop}-neg", workers=2, timeout=900, coverage=False)
+        if not re.search(rf"Invariant ({inv}|MarkOK) is violated|The invariant of {inv} is equal to FALSE", res["out"]):
+            raise ToolError(f"TreePm.tla: the faulty variant '{variant}' was not refuted (vacuous refinement check):\n" + res["out"][-1500:])
+    out.notes.append("TreePm.tla: the faulty variants (colliding keys, root field assigned only when the batch grows the tree, batch re-hash trusting the "
+                     "stored right child) and the adapter's batch-with-removals path (known finding pm-override-batch) are refuted by TLC")
+    # ---- the real store against the model
+    binary, _ = build_harness("default")
+    plan = [(2, 60, 25), (3, 40, 30), (5, 12, 40)] if quick else [(2, 300, 30), (3, 200, 40), (5, 60, 60), (7, 10, 80)]
+    lines = 0
+    for d, count, ln in plan:
+        tp = os.path.join(wd, f"pmnodes-d{d}.ndjson")
+        tb = os.path.join(wd, f"pmnodes-d{d}.table.json")
+        rc, o = run([binary, "pmnodes", "--seed", str(seed()), "--depth", str(d), "--count", str(count), "--len", str(ln), "--out", tp, "--table", tb], timeout=1800)
+        if rc != 0:
+            raise ToolError("pmnodes recorder failed:\n" + o[-1500:])
+        rows = read_ndjson(tp)
+        c = cfg(f"Trace_TreePm_d{d}", "none", d, [0], 0, spec="TSpec", extra="POSTCONDITION Accepted\n")
+        res = tlc_judge("Trace_TreePm", c, {"TRACE": tp, "TABLE": tb}, f"judge-pmnodes-{out.prop}-{d}", timeout=3000)
+        viol = re.search(r"Error: Invariant (\w+) is violated", res["out"])
+        if res["reject_at"] is not None or viol:
+            at = res["reject_at"] if res["reject_at"] is not None else (res["depth"] or 1)
+            ev = rows[min(at, len(rows)) - 1]
+            what = (f"invariant {viol.group(1)} of TreePm.tla fails in the state reached" if viol else
+                    "no action of TreePm.tla produces the logged result / next_index / root / store content")
+            out.violation(f"persistent backend, node level (depth {d}, seed {seed()}): line {at} {json.dumps(ev)[:300]}: {what}",
+                          {"kind": "pmnodes", "depth": d, "count": count, "len": ln, "line": at, "event": ev})
+            continue
+        if res["tool_error"]:
+            raise ToolError("pmnodes judge failed:\n" + res["tool_error"])
+        if res["depth"] - 1 != len(rows):
+            raise ToolError(f"pmnodes judge consumed {res['depth'] - 1} of {len(rows)} lines")
+        lines += len(rows)
+        if d == 2:
+            # negative control: one stored node dropped from one logged line -> rejected exactly there
+            k = next(i for i, r in enumerate(rows) if r["op"] == "range" and r["res"] == "ok")
+            neg = [dict(r) for r in rows[:k + 1]]
+            neg[k]["nodes"] = neg[k]["nodes"][:-1]
+            np_ = os.path.join(wd, "pmnodes-neg.ndjson")
+            write_ndjson(np_, neg)
+            r2 = tlc_judge("Trace_TreePm", c, {"TRACE": np_, "TABLE": tb}, f"judge-pmnodes-{out.prop}-neg", timeout=600)
+            if r2["reject_at"] != k + 1:
+                raise ToolError(f"negative control: the node-level judge did not reject the altered line {k + 1} (reject_at={r2['reject_at']})")
+    out.add(pm_store_lines_validated=lines, pm_store_depths=[p[0] for p in plan])
+    out.notes.append(f"Trace_TreePm.tla: {lines} calls on the real pmtree::MerkleTree<SledDB, Poseidon> (depths {[p[0] for p in plan]}, with reloads) accepted: "
+                     "after every call the content of the store (which node keys hold a value, and which), next_index in memory and in the store and the "
+                     "root field are those of the model; negative control rejected")
     return states
 
 
